@@ -265,7 +265,8 @@ WHITELIST = [
 UNITS = [("century", "century"), ("year", "year"), ("iso_year", "isoYear"), ("quarter", "quarter"), ("month", "month"),
          ("week", "week"), ("iso_week", "isoWeek"), ("month_start_week", "monthStartWeek"), ("day", "day"),
          ("sunday_start_week", "sundayStartWeek"), ("hour", "hour"), ("minute", "minute")]
-UNITS_PROVED = set(['Date.round_century', 'Date.round_day', 'Date.round_hour', 'Date.round_iso_week', 'Date.round_minute', 'Date.round_month', 'Date.round_month_start_week', 'Date.round_month_start_week_internal', 'Date.round_quarter', 'Date.round_sunday_start_week', 'Date.round_week', 'Date.round_week_internal', 'Date.round_year', 'Date.trunc_century', 'Date.trunc_day', 'Date.trunc_hour', 'Date.trunc_iso_week', 'Date.trunc_minute', 'Date.trunc_month', 'Date.trunc_month_start_week', 'Date.trunc_quarter', 'Date.trunc_sunday_start_week', 'Date.trunc_week', 'Date.trunc_year', 'current_date', 'sub_to_date'])
+UNITS_PROVED_5B = set(['Date.round_century', 'Date.round_day', 'Date.round_hour', 'Date.round_iso_week', 'Date.round_minute', 'Date.round_month', 'Date.round_month_start_week', 'Date.round_month_start_week_internal', 'Date.round_quarter', 'Date.round_sunday_start_week', 'Date.round_week', 'Date.round_week_internal', 'Date.round_year', 'Date.trunc_century', 'Date.trunc_day', 'Date.trunc_hour', 'Date.trunc_iso_week', 'Date.trunc_minute', 'Date.trunc_month', 'Date.trunc_month_start_week', 'Date.trunc_quarter', 'Date.trunc_sunday_start_week', 'Date.trunc_week', 'Date.trunc_year', 'current_date', 'sub_to_date'])
+UNITS_PROVED = UNITS_PROVED_5B if os.environ.get("RS2LEAN_5B_ONLY") else None   # None: every Trunc/Round function is emitted
 _units_wl = [
     ("date.rs", None, "sub_to_date", "sub_to_date", "date: Date, sub_day: i32", "Result<Date>",
      "fun d k => SqlDt.Date.subDays d k"),
